@@ -183,4 +183,120 @@ example : phylipFormat 2 [(['a', 'b', 'c', 'd', 'e', 'f', 'g', 'h', 'i', 'j', 'k
     .ok (['1', ' ', ' ', '3', '\n'] ++ ['a', 'b', 'c', 'd', 'e', 'f', 'g', 'h', 'i', ' ', 'A', 'C', '\n'] ++
       [' ', ' ', ' ', ' ', ' ', ' ', ' ', ' ', ' ', ' ', 'G', '\n']) := by decide
 
+/-! ## Added by the audit: chunked streaming composed with the parsers
+
+`parse/sequence.py` registers the PHYLIP, PAML and GDE parsers as `LineBasedParser(parser)`, i.e.
+`parser(iter_splitlines(path))`.  The theorems below compose `splitlines_chunk_independent` with the round-trip
+theorems: **for every chunk size (every cutting of the written file into non-empty reads) the streamed parse
+returns the records** — the clause "every chunk size used when streaming lines produces identical records". -/
+
+/-- parsing the streamed lines = parsing `text.splitlines()`, for any parser `f` and any `'\n'`-only text -/
+theorem streamed_parse_eq {β} (f : List Str → β) (text : Str) (hnl : NlOnly text) (chunks : List (List Char))
+    (hne : ∀ ch ∈ chunks, ch ≠ []) (hcat : chunks.flatten = text) :
+    f (iterSplitlines chunks) = f (pySplitlines text) := by
+  rw [splitlines_chunk_independent chunks hne (by rw [hcat]; exact hnl), hcat]
+
+/-- what `seqs_to_fasta` writes for well-formed records has `'\n'` as its only line boundary -/
+theorem fasta_text_nlOnly (recs : List (Str × List Str)) (hwf : WfRecs ['>'] recs) : NlOnly (fastaFormat recs) := by
+  rw [fastaFormat_eq]
+  exact unlines_nlOnly (recLines_noBreak (l0 := '>') (by decide) hwf)
+
+/-- the same for the GDE writer -/
+theorem gde_text_nlOnly (bs : Nat) (hbs : 0 < bs) (recs : List Rec)
+    (hwf : ∀ r ∈ recs, wfName r.1 = true ∧ wfSeq ['%', '#'] r.2 = true) : NlOnly (gdeFormat bs recs) := by
+  rw [gdeFormat_eq hbs recs (fun r hr => (hwf r hr).2)]
+  exact unlines_nlOnly (recLines_noBreak (l0 := '%') (by decide) (blocked_wf hbs hwf))
+
+/-- the same for the PAML writer -/
+theorem paml_text_nlOnly (bs : Nat) (hbs : 0 < bs) (recs : List Rec) (text : Str)
+    (hwf : ∀ r ∈ recs, wfName r.1 = true ∧ wfSeq [] r.2 = true)
+    (h : pamlFormat bs recs = .ok text) : NlOnly text := by
+  unfold pamlFormat at h
+  cases hh : headerLine recs with
+  | none => rw [hh] at h; cases h
+  | some hd =>
+    rw [hh] at h
+    simp only [Except.ok.injEq] at h
+    subst h
+    have hw : WfRecs [] (blocked bs recs) := blocked_wf hbs hwf
+    rw [pamlBody_eq hbs recs (fun r hr => (hwf r hr).2), ← unlines_cons]
+    refine unlines_nlOnly (noBreak_cons ?_ (plainLines_noBreak hw))
+    cases recs with
+    | nil => simp [headerLine] at hh
+    | cons r rest =>
+      simp only [headerLine, Option.some.injEq] at hh
+      subst hh
+      exact header_noBreak _ _
+
+/-- the same for the PHYLIP writer -/
+theorem phylip_text_nlOnly (bs : Nat) (hbs : 0 < bs) (recs : List Rec) (text : Str) (L : Nat)
+    (hwf : ∀ r ∈ recs, wfName r.1 = true ∧ wfSeq [] r.2 = true ∧ r.2.length = L)
+    (h : phylipFormat bs recs = .ok text) : NlOnly text := by
+  cases recs with
+  | nil => simp [phylipFormat] at h
+  | cons r0 rest =>
+    have hL0 : r0.2.length = L := (hwf r0 List.mem_cons_self).2.2
+    have hw : WfRecs [] (blocked bs (r0 :: rest)) := blocked_wf hbs (fun r hr => ⟨(hwf r hr).1, (hwf r hr).2.1⟩)
+    simp only [phylipFormat, headerLine, Except.ok.injEq] at h
+    subst h
+    rw [hL0, phyLines_eq hbs (r0 :: rest) (fun r hr => (hwf r hr).2.2), ← unlines_cons]
+    exact unlines_nlOnly (noBreak_cons (header_noBreak _ _) (phyLines_noBreak hw))
+
+/-- **FASTA, line based parsers, every chunk size**: `MinimalFastaParser(iter_splitlines(path))` on a written file -/
+theorem fasta_streamed_roundtrip (recs : List (Str × List Str)) (hwf : WfRecs ['>'] recs)
+    (chunks : List (List Char)) (hne : ∀ ch ∈ chunks, ch ≠ []) (hcat : chunks.flatten = fastaFormat recs) :
+    fasterParser ['>'] (iterSplitlines chunks) = expected recs ∧
+    (recs ≠ [] → strictParser ['>'] (iterSplitlines chunks) = .ok (expected recs)) := by
+  have hnl := fasta_text_nlOnly recs hwf
+  rw [streamed_parse_eq (fasterParser ['>']) _ hnl chunks hne hcat,
+    streamed_parse_eq (strictParser ['>']) _ hnl chunks hne hcat]
+  exact fasta_roundtrip recs hwf
+
+/-- **GDE, every chunk size and every block size** (the registry's `LineBasedParser(MinimalGdeParser)`) -/
+theorem gde_streamed_roundtrip (bs : Nat) (hbs : 0 < bs) (recs : List Rec) (hne : recs ≠ [])
+    (hwf : ∀ r ∈ recs, wfName r.1 = true ∧ wfSeq ['%', '#'] r.2 = true)
+    (chunks : List (List Char)) (hch : ∀ ch ∈ chunks, ch ≠ []) (hcat : chunks.flatten = gdeFormat bs recs) :
+    strictParser ['%', '#'] (iterSplitlines chunks) = .ok recs ∧
+    fasterParser ['%', '#'] (iterSplitlines chunks) = recs := by
+  have hnl := gde_text_nlOnly bs hbs recs hwf
+  rw [streamed_parse_eq (strictParser ['%', '#']) _ hnl chunks hch hcat,
+    streamed_parse_eq (fasterParser ['%', '#']) _ hnl chunks hch hcat]
+  exact gde_roundtrip bs hbs recs hne hwf
+
+example : [['%', 's', '>'], ['1', '\n', 'A'], ['C', '\n'], ['G', 'T', '\n', 'A', '\n']].flatten
+    = gdeFormat 2 [(['s', '>', '1'], ['A', 'C', 'G', 'T', 'A'])] := by decide
+example : strictParser ['%', '#'] (iterSplitlines [['%', 's', '>'], ['1', '\n', 'A'], ['C', '\n'], ['G', 'T', '\n', 'A', '\n']])
+    = .ok [(['s', '>', '1'], ['A', 'C', 'G', 'T', 'A'])] := by decide
+
+/-- **PAML, every chunk size and every block size** (the registry's `LineBasedParser(PamlParser)`) -/
+theorem paml_streamed_roundtrip (bs : Nat) (hbs : 0 < bs) (recs : List Rec) (hne : recs ≠ []) (L : Nat)
+    (hwf : ∀ r ∈ recs, wfName r.1 = true ∧ wfSeq [] r.2 = true ∧ noLower r.2 = true ∧ r.2.length = L) :
+    ∃ text, pamlFormat bs recs = .ok text ∧
+      ∀ chunks : List (List Char), (∀ ch ∈ chunks, ch ≠ []) → chunks.flatten = text →
+        pamlParser (iterSplitlines chunks) = .ok recs := by
+  obtain ⟨text, hfmt, hparse⟩ := paml_roundtrip bs hbs recs hne L hwf
+  refine ⟨text, hfmt, fun chunks hch hcat => ?_⟩
+  have hnl := paml_text_nlOnly bs hbs recs text (fun r hr => ⟨(hwf r hr).1, (hwf r hr).2.1⟩) hfmt
+  rw [streamed_parse_eq pamlParser text hnl chunks hch hcat]
+  exact hparse
+
+example : pamlParser (iterSplitlines [['1', ' ', ' '], ['3', '\n', 's'], ['\n'], ['A', 'C', '\n', 'G'], ['\n']])
+    = .ok [(['s'], ['A', 'C', 'G'])] := by decide
+
+/-- **PHYLIP, every chunk size and every block size** (the registry's `LineBasedParser(MinimalPhylipParser)`) -/
+theorem phylip_streamed_roundtrip (bs : Nat) (hbs : 0 < bs) (recs : List Rec) (hne : recs ≠ []) (L : Nat)
+    (hwf : ∀ r ∈ recs, wfName r.1 = true ∧ wfSeq [] r.2 = true ∧ r.2.length = L) :
+    ∃ text, phylipFormat bs recs = .ok text ∧
+      ∀ chunks : List (List Char), (∀ ch ∈ chunks, ch ≠ []) → chunks.flatten = text →
+        phylipParser (iterSplitlines chunks) = .ok (recs.map (fun r => (truncName r.1, r.2))) := by
+  obtain ⟨text, hfmt, hparse⟩ := phylip_roundtrip bs hbs recs hne L hwf
+  refine ⟨text, hfmt, fun chunks hch hcat => ?_⟩
+  have hnl := phylip_text_nlOnly bs hbs recs text L hwf hfmt
+  rw [streamed_parse_eq phylipParser text hnl chunks hch hcat]
+  exact hparse
+
+example : phylipParser (iterSplitlines [['1', ' ', ' ', '3'], ['\n', 'a', 'b'],
+    [' ', ' ', ' ', ' ', ' ', ' ', ' ', ' ', 'A', 'C', '\n', ' '], [' ', ' ', ' ', ' ', ' ', ' ', ' ', ' ', ' ', 'G', '\n']])
+    = .ok [(['a', 'b'], ['A', 'C', 'G'])] := by decide
+
 end CogentModel.C06
